@@ -280,6 +280,16 @@ def oracle(run, prim):
                 if bs[-1] == 0:
                     continue
                 txt_cases.append("p_dec\tDefault\tString\t%s" % hexs(bs)); txt_meta.append(("Default", bs))
+    # NEIGHBOURING high bytes: every pair, and triples / quadruples shaped like multi-byte UTF-8 — each byte is one character of
+    # the code page whatever stands next to it
+    for b1 in range(0x80, 0x100):
+        for b2 in range(0x80, 0x100):
+            txt_cases.append("p_dec\tDefault\tString\t%s" % hexs([b1, b2])); txt_meta.append(("Default", [b1, b2]))
+    for _ in range(20000 if th else 3000):
+        lead = rng.choice([rng.randrange(0xC2, 0xE0), rng.randrange(0xE0, 0xF0), rng.randrange(0xF0, 0xF5)])
+        n = 2 if lead < 0xE0 else 3 if lead < 0xF0 else 4
+        bs = [0x41] * rng.randrange(0, 3) + [lead] + [rng.randrange(0x80, 0xC0) for _ in range(n - 1)] + [0x42] * rng.randrange(0, 3)
+        txt_cases.append("p_dec\tDefault\tString\t%s" % hexs(bs)); txt_meta.append(("Default", bs))
     for _ in range(2000 if th else 300):
         bs = [rng.randrange(256) for _ in range(rng.randrange(0, 65))]
         txt_cases.append("p_dec\tHex\tString\t%s" % hexs(bs)); txt_meta.append(("Hex", bs))
@@ -290,6 +300,12 @@ def oracle(run, prim):
             run.violation(kind="input", case=c, expected="Ok <string> -", observed=o, how_found="oracle")
             continue
         sval = o[3:-2]
+        if e == "Default" and all(0x20 <= b < 0x7f or b >= 0x80 for b in bs):
+            # the VALUE, from the code page table of the specification (coq/Cp437.v, kernel-checked bijective), byte by byte
+            want = "s:" + (".".join("%x" % (b if b < 0x80 else CP437_HIGH[b - 0x80]) for b in bs) or "-")
+            if sval != want:
+                run.violation(kind="input", case=c, expected="Ok %s -" % want, observed=o, how_found="oracle",
+                              detail="every byte is one character of code page 437, whatever stands next to it")
         if e == "Hex":
             want = "s:" + (".".join("%x" % ord(ch) for ch in "".join("%02x" % b for b in bs)) or "-")
             if sval != want:
